@@ -78,15 +78,7 @@ func (b *Buffer[T]) Sample(i int) T {
 // bit depth, otherwise function will panic.
 func (dst *Buffer[D]) Append(src *Buffer[D]) {
 	mustSame(dst.Channels(), src.Channels(), diffChannels)
-	offset := dst.Len()
-	if dst.Cap() < dst.Len()+src.Len() {
-		dst.data = append(dst.data, make([]D, src.Len())...)
-	} else {
-		dst.data = dst.data[:dst.Len()+src.Len()]
-	}
-	for i := 0; i < src.Len(); i++ {
-		dst.SetSample(i+offset, src.Sample(i))
-	}
+	dst.data = append(dst.data, src.data...)
 	alignCapacity(&dst.data, dst.Channels(), dst.Cap())
 }
 
